@@ -469,7 +469,16 @@ func (p *parser) parseASCII(minLength, maxLength int) (item ast.ItemNode, ok boo
 				// all placeholders share one text: an input that repeats the name must not cost
 				// (number of duplicates) x (declared size) bytes
 				if len(p.placeholder) < minLength {
-					p.placeholder = strings.Repeat("*", minLength)
+					// at least double it: texts handed out earlier stay alive, and a size that grows
+					// a little with every duplicate must not cost a new text each time
+					n := 2 * len(p.placeholder)
+					if n < minLength {
+						n = minLength
+					}
+					if n > ast.MAX_BYTE_SIZE {
+						n = ast.MAX_BYTE_SIZE
+					}
+					p.placeholder = strings.Repeat("*", n)
 				}
 				return ast.NewASCIINode(p.placeholder[:minLength]), true
 			} else {
